@@ -237,9 +237,21 @@ func (c *Ctx) ViolP(prop, key, detail string, cs any) {
 		v = &Viol{Prop: prop, Key: key, Detail: detail, Case: cs}
 		c.viols[k] = v
 		c.sum.Viols = append(c.sum.Viols, v)
+		v.Count++
+		c.mu.Unlock()
+		c.write(false) // a new kind of violation is on disk at once: the worker may hang or die right after it
+		return
 	}
 	v.Count++
 	c.mu.Unlock()
+}
+
+// Restart ends this worker process after the current case and asks the driver for a fresh one that resumes behind it: used
+// when a recovered panic may have left process-global library state behind (a package level lock held by the panicking
+// goroutine), which would make every following case hang.
+func (c *Ctx) Restart() {
+	c.write(false)
+	os.Exit(86)
 }
 
 // Hex is a helper for case payloads.
@@ -356,7 +368,11 @@ func (c *Ctx) maybeSnap() {
 	}
 }
 
+var writeMu sync.Mutex
+
 func (c *Ctx) write(done bool) {
+	writeMu.Lock()
+	defer writeMu.Unlock()
 	c.mu.Lock()
 	c.sum.Done = done
 	b, err := json.Marshal(&c.sum)
